@@ -237,7 +237,7 @@ pub fn run(ctx: &Ctx) -> Outcome {
         }
     }
     // ---- random sequences with the growth monitor
-    let target = ctx.q(2500u64, 20000);
+    let target = ctx.q(2500u64, 2_000_000);
     let mut i = 0;
     let mut st = SeqStats::default();
     while i < target && ctx.time_left() {
